@@ -111,6 +111,8 @@ pub(crate) trait IdlSqliteTransaction {
     }
 
     fn get_identry_raw(&self, idl: &IdList) -> Result<Vec<IdRawEntry>, OperationError> {
+        #[cfg(feature = "verif-hooks")]
+        crate::verif_hooks::c04::storage_point("r:identry")?;
         // is the idl allids?
         match idl {
             IdList::AllIds => {
@@ -196,6 +198,8 @@ pub(crate) trait IdlSqliteTransaction {
     }
 
     fn exists_table(&self, tname: &str) -> Result<bool, OperationError> {
+        #[cfg(feature = "verif-hooks")]
+        crate::verif_hooks::c04::storage_point("r:exists_table")?;
         let mut stmt = self
             .get_conn()?
             .prepare(&format!(
@@ -228,6 +232,8 @@ pub(crate) trait IdlSqliteTransaction {
         itype: IndexType,
         idx_key: &str,
     ) -> Result<Option<IDLBitRange>, OperationError> {
+        #[cfg(feature = "verif-hooks")]
+        crate::verif_hooks::c04::storage_point("r:idl")?;
         if !(self.exists_idx(attr, itype)?) {
             debug!(
                 "IdlSqliteTransaction: Index {:?} {:?} not found",
@@ -266,6 +272,8 @@ pub(crate) trait IdlSqliteTransaction {
     }
 
     fn name2uuid(&mut self, name: &str) -> Result<Option<Uuid>, OperationError> {
+        #[cfg(feature = "verif-hooks")]
+        crate::verif_hooks::c04::storage_point("r:name2uuid")?;
         // The table exists - lets now get the actual index itself.
         let mut stmt = self
             .get_conn()?
@@ -286,6 +294,8 @@ pub(crate) trait IdlSqliteTransaction {
     }
 
     fn externalid2uuid(&mut self, name: &str) -> Result<Option<Uuid>, OperationError> {
+        #[cfg(feature = "verif-hooks")]
+        crate::verif_hooks::c04::storage_point("r:externalid2uuid")?;
         // The table exists - lets now get the actual index itself.
         let mut stmt = self
             .get_conn()?
@@ -306,6 +316,8 @@ pub(crate) trait IdlSqliteTransaction {
     }
 
     fn uuid2spn(&mut self, uuid: Uuid) -> Result<Option<Value>, OperationError> {
+        #[cfg(feature = "verif-hooks")]
+        crate::verif_hooks::c04::storage_point("r:uuid2spn")?;
         let uuids = uuid.as_hyphenated().to_string();
         // The table exists - lets now get the actual index itself.
         let mut stmt = self
@@ -335,6 +347,8 @@ pub(crate) trait IdlSqliteTransaction {
     }
 
     fn uuid2rdn(&mut self, uuid: Uuid) -> Result<Option<String>, OperationError> {
+        #[cfg(feature = "verif-hooks")]
+        crate::verif_hooks::c04::storage_point("r:uuid2rdn")?;
         let uuids = uuid.as_hyphenated().to_string();
         // The table exists - lets now get the actual index itself.
         let mut stmt = self
@@ -354,6 +368,8 @@ pub(crate) trait IdlSqliteTransaction {
     }
 
     fn get_db_s_uuid(&self) -> Result<Option<Uuid>, OperationError> {
+        #[cfg(feature = "verif-hooks")]
+        crate::verif_hooks::c04::storage_point("r:s_uuid")?;
         // Try to get a value.
         let data: Option<Vec<u8>> = self
             .get_conn()?
@@ -383,6 +399,8 @@ pub(crate) trait IdlSqliteTransaction {
     }
 
     fn get_db_d_uuid(&self) -> Result<Option<Uuid>, OperationError> {
+        #[cfg(feature = "verif-hooks")]
+        crate::verif_hooks::c04::storage_point("r:d_uuid")?;
         // Try to get a value.
         let data: Option<Vec<u8>> = self
             .get_conn()?
@@ -412,6 +430,8 @@ pub(crate) trait IdlSqliteTransaction {
     }
 
     fn get_db_ts_max(&self) -> Result<Option<Duration>, OperationError> {
+        #[cfg(feature = "verif-hooks")]
+        crate::verif_hooks::c04::storage_point("r:ts_max")?;
         // Try to get a value.
         let data: Option<Vec<u8>> = self
             .get_conn()?
@@ -441,6 +461,8 @@ pub(crate) trait IdlSqliteTransaction {
     }
 
     fn get_key_handles(&mut self) -> Result<BTreeMap<KeyHandleId, KeyHandle>, OperationError> {
+        #[cfg(feature = "verif-hooks")]
+        crate::verif_hooks::c04::storage_point("r:key_handles")?;
         let mut stmt = self
             .get_conn()?
             .prepare(&format!(
@@ -465,6 +487,8 @@ pub(crate) trait IdlSqliteTransaction {
 
     #[instrument(level = "debug", name = "idl_sqlite::get_allids", skip_all)]
     fn get_allids(&self) -> Result<IDLBitRange, OperationError> {
+        #[cfg(feature = "verif-hooks")]
+        crate::verif_hooks::c04::storage_point("r:allids")?;
         let mut stmt = self
             .get_conn()?
             .prepare(&format!("SELECT id FROM {}.id2entry", self.get_db_name()))
@@ -488,6 +512,8 @@ pub(crate) trait IdlSqliteTransaction {
     }
 
     fn list_idxs(&self) -> Result<Vec<String>, OperationError> {
+        #[cfg(feature = "verif-hooks")]
+        crate::verif_hooks::c04::storage_point("r:list_idxs")?;
         let mut stmt = self
             .get_conn()?
             .prepare(&format!(
@@ -509,6 +535,8 @@ pub(crate) trait IdlSqliteTransaction {
     }
 
     fn list_quarantined(&self) -> Result<Vec<(u64, String)>, OperationError> {
+        #[cfg(feature = "verif-hooks")]
+        crate::verif_hooks::c04::storage_point("r:list_quarantined")?;
         // This is a more direct version of get_identry_raw adapted for the simpler
         // quarantine setup.
         let mut stmt = self
@@ -557,6 +585,8 @@ pub(crate) trait IdlSqliteTransaction {
         &self,
         index_name: &str,
     ) -> Result<Vec<(String, IDLBitRange)>, OperationError> {
+        #[cfg(feature = "verif-hooks")]
+        crate::verif_hooks::c04::storage_point("r:index_content")?;
         // TODO: Once we have slopes we can add .exists_table, and assert
         // it's an idx table.
 
@@ -659,6 +689,8 @@ impl IdlSqliteReadTransaction {
         // this a Result<>
         //
         // There is no way to flag this is an RO operation.
+        #[cfg(feature = "verif-hooks")]
+        crate::verif_hooks::c04::storage_point("begin_r")?;
         conn.execute("BEGIN DEFERRED TRANSACTION", [])
             .map_err(sqlite_error)?;
 
@@ -709,6 +741,8 @@ impl IdlSqliteWriteTransaction {
         db_name: &'static str,
     ) -> Result<Self, OperationError> {
         // Start the transaction
+        #[cfg(feature = "verif-hooks")]
+        crate::verif_hooks::c04::storage_point("begin_w")?;
         conn.execute("BEGIN EXCLUSIVE TRANSACTION", [])
             .map_err(sqlite_error)?;
         Ok(IdlSqliteWriteTransaction {
@@ -726,12 +760,16 @@ impl IdlSqliteWriteTransaction {
         std::mem::swap(&mut dropping, &mut self.conn);
 
         if let Some(conn) = dropping {
+            #[cfg(feature = "verif-hooks")]
+            crate::verif_hooks::c04::storage_point("commit")?;
             conn.execute("COMMIT TRANSACTION", [])
                 .map(|_| ())
                 .map_err(|e| {
                     admin_error!(?e, "CRITICAL: failed to commit sqlite txn");
                     OperationError::BackendEngine
                 })?;
+            #[cfg(feature = "verif-hooks")]
+            crate::verif_hooks::c04::crash_point("post_commit");
 
             self.pool
                 .lock()
@@ -748,6 +786,8 @@ impl IdlSqliteWriteTransaction {
     }
 
     pub fn get_id2entry_max_id(&self) -> Result<u64, OperationError> {
+        #[cfg(feature = "verif-hooks")]
+        crate::verif_hooks::c04::storage_point("r:max_id")?;
         let mut stmt = self
             .get_conn()?
             .prepare(&format!(
@@ -799,6 +839,8 @@ impl IdlSqliteWriteTransaction {
             .map_err(sqlite_error)?;
 
         entries.try_for_each(|e| {
+            #[cfg(feature = "verif-hooks")]
+            crate::verif_hooks::c04::storage_point("w:identry")?;
             IdSqliteEntry::try_from(e).and_then(|ser_ent| {
                 stmt.execute(named_params! {
                     ":id": &ser_ent.id,
@@ -812,6 +854,8 @@ impl IdlSqliteWriteTransaction {
     }
 
     pub fn delete_identry(&self, id: u64) -> Result<(), OperationError> {
+        #[cfg(feature = "verif-hooks")]
+        crate::verif_hooks::c04::storage_point("w:identry_del")?;
         let mut stmt = self
             .get_conn()?
             .prepare(&format!(
@@ -843,6 +887,8 @@ impl IdlSqliteWriteTransaction {
         idx_key: &str,
         idl: &IDLBitRange,
     ) -> Result<(), OperationError> {
+        #[cfg(feature = "verif-hooks")]
+        crate::verif_hooks::c04::storage_point("w:idl")?;
         if idl.is_empty() {
             // delete it
             // Delete this idx_key from the table.
@@ -884,6 +930,8 @@ impl IdlSqliteWriteTransaction {
     }
 
     pub fn create_name2uuid(&self) -> Result<(), OperationError> {
+        #[cfg(feature = "verif-hooks")]
+        crate::verif_hooks::c04::storage_point("w:ddl")?;
         self.get_conn()?
             .execute(
                 &format!("CREATE TABLE IF NOT EXISTS {}.idx_name2uuid (name TEXT PRIMARY KEY, uuid TEXT)", self.get_db_name()),
@@ -894,6 +942,8 @@ impl IdlSqliteWriteTransaction {
     }
 
     pub fn write_name2uuid_add(&self, name: &str, uuid: Uuid) -> Result<(), OperationError> {
+        #[cfg(feature = "verif-hooks")]
+        crate::verif_hooks::c04::storage_point("w:name")?;
         let uuids = uuid.as_hyphenated().to_string();
 
         self.get_conn()?
@@ -912,6 +962,8 @@ impl IdlSqliteWriteTransaction {
     }
 
     pub fn write_name2uuid_rem(&self, name: &str) -> Result<(), OperationError> {
+        #[cfg(feature = "verif-hooks")]
+        crate::verif_hooks::c04::storage_point("w:name")?;
         self.get_conn()?
             .prepare(&format!(
                 "DELETE FROM {}.idx_name2uuid WHERE name = :name",
@@ -923,6 +975,8 @@ impl IdlSqliteWriteTransaction {
     }
 
     pub fn create_externalid2uuid(&self) -> Result<(), OperationError> {
+        #[cfg(feature = "verif-hooks")]
+        crate::verif_hooks::c04::storage_point("w:ddl")?;
         self.get_conn()?
             .execute(
                 &format!("CREATE TABLE IF NOT EXISTS {}.idx_externalid2uuid (eid TEXT PRIMARY KEY, uuid TEXT)", self.get_db_name()),
@@ -933,6 +987,8 @@ impl IdlSqliteWriteTransaction {
     }
 
     pub fn write_externalid2uuid_add(&self, name: &str, uuid: Uuid) -> Result<(), OperationError> {
+        #[cfg(feature = "verif-hooks")]
+        crate::verif_hooks::c04::storage_point("w:name")?;
         let uuids = uuid.as_hyphenated().to_string();
 
         self.get_conn()?
@@ -951,6 +1007,8 @@ impl IdlSqliteWriteTransaction {
     }
 
     pub fn write_externalid2uuid_rem(&self, name: &str) -> Result<(), OperationError> {
+        #[cfg(feature = "verif-hooks")]
+        crate::verif_hooks::c04::storage_point("w:name")?;
         self.get_conn()?
             .prepare(&format!(
                 "DELETE FROM {}.idx_externalid2uuid WHERE eid = :eid",
@@ -962,6 +1020,8 @@ impl IdlSqliteWriteTransaction {
     }
 
     pub fn create_uuid2spn(&self) -> Result<(), OperationError> {
+        #[cfg(feature = "verif-hooks")]
+        crate::verif_hooks::c04::storage_point("w:ddl")?;
         self.get_conn()?
             .execute(
                 &format!(
@@ -975,6 +1035,8 @@ impl IdlSqliteWriteTransaction {
     }
 
     pub fn write_uuid2spn(&self, uuid: Uuid, k: Option<&Value>) -> Result<(), OperationError> {
+        #[cfg(feature = "verif-hooks")]
+        crate::verif_hooks::c04::storage_point("w:name")?;
         let uuids = uuid.as_hyphenated().to_string();
         match k {
             Some(k) => {
@@ -1007,6 +1069,8 @@ impl IdlSqliteWriteTransaction {
     }
 
     pub fn create_uuid2rdn(&self) -> Result<(), OperationError> {
+        #[cfg(feature = "verif-hooks")]
+        crate::verif_hooks::c04::storage_point("w:ddl")?;
         self.get_conn()?
             .execute(
                 &format!(
@@ -1020,6 +1084,8 @@ impl IdlSqliteWriteTransaction {
     }
 
     pub fn write_uuid2rdn(&self, uuid: Uuid, k: Option<&String>) -> Result<(), OperationError> {
+        #[cfg(feature = "verif-hooks")]
+        crate::verif_hooks::c04::storage_point("w:name")?;
         let uuids = uuid.as_hyphenated().to_string();
         match k {
             Some(k) => self
@@ -1044,6 +1110,8 @@ impl IdlSqliteWriteTransaction {
     }
 
     pub(crate) fn create_keyhandles(&self) -> Result<(), OperationError> {
+        #[cfg(feature = "verif-hooks")]
+        crate::verif_hooks::c04::storage_point("w:ddl")?;
         self.get_conn()?
             .execute(
                 &format!(
@@ -1057,6 +1125,8 @@ impl IdlSqliteWriteTransaction {
     }
 
     pub(crate) fn create_db_ruv(&self) -> Result<(), OperationError> {
+        #[cfg(feature = "verif-hooks")]
+        crate::verif_hooks::c04::storage_point("w:ddl")?;
         self.get_conn()?
             .execute(
                 &format!(
@@ -1070,6 +1140,8 @@ impl IdlSqliteWriteTransaction {
     }
 
     pub fn get_db_ruv(&self) -> Result<BTreeSet<Cid>, OperationError> {
+        #[cfg(feature = "verif-hooks")]
+        crate::verif_hooks::c04::storage_point("r:ruv")?;
         let mut stmt = self
             .get_conn()?
             .prepare(&format!("SELECT cid FROM {}.ruv", self.get_db_name()))
@@ -1100,6 +1172,8 @@ impl IdlSqliteWriteTransaction {
             .map_err(sqlite_error)?;
 
         removed.try_for_each(|cid| {
+            #[cfg(feature = "verif-hooks")]
+            crate::verif_hooks::c04::storage_point("w:ruv")?;
             let db_cid: DbCidV1 = cid.into();
 
             serde_json::to_string(&db_cid)
@@ -1123,6 +1197,8 @@ impl IdlSqliteWriteTransaction {
             .map_err(sqlite_error)?;
 
         added.try_for_each(|cid| {
+            #[cfg(feature = "verif-hooks")]
+            crate::verif_hooks::c04::storage_point("w:ruv")?;
             let db_cid: DbCidV1 = cid.into();
 
             serde_json::to_string(&db_cid)
@@ -1140,6 +1216,8 @@ impl IdlSqliteWriteTransaction {
 
     #[instrument(level = "debug", skip(self))]
     pub fn create_idx(&self, attr: &Attribute, itype: IndexType) -> Result<(), OperationError> {
+        #[cfg(feature = "verif-hooks")]
+        crate::verif_hooks::c04::storage_point("w:ddl")?;
         // Is there a better way than formatting this? I can't seem
         // to template into the str.
         //
@@ -1163,6 +1241,8 @@ impl IdlSqliteWriteTransaction {
     /// specific situations.
     #[instrument(level = "trace", skip_all)]
     pub fn danger_purge_idxs(&self) -> Result<(), OperationError> {
+        #[cfg(feature = "verif-hooks")]
+        crate::verif_hooks::c04::storage_point("w:ddl")?;
         let idx_table_list = self.list_idxs()?;
         trace!(tables = ?idx_table_list);
 
@@ -1179,6 +1259,8 @@ impl IdlSqliteWriteTransaction {
         &self,
         slopes: &HashMap<IdxKey, IdxSlope>,
     ) -> Result<(), OperationError> {
+        #[cfg(feature = "verif-hooks")]
+        crate::verif_hooks::c04::storage_point("w:slope")?;
         self.get_conn()?
             .execute(
                 &format!(
@@ -1226,6 +1308,8 @@ impl IdlSqliteWriteTransaction {
     }
 
     pub fn get_idx_slope(&self, ikey: &IdxKey) -> Result<Option<IdxSlope>, OperationError> {
+        #[cfg(feature = "verif-hooks")]
+        crate::verif_hooks::c04::storage_point("r:slope")?;
         let analysis_exists = self.exists_table("idxslope_analysis")?;
         if !analysis_exists {
             return Ok(None);
@@ -1254,6 +1338,8 @@ impl IdlSqliteWriteTransaction {
     }
 
     pub fn quarantine_entry(&self, id: u64) -> Result<(), OperationError> {
+        #[cfg(feature = "verif-hooks")]
+        crate::verif_hooks::c04::storage_point("w:quarantine")?;
         let iid = i64::try_from(id).map_err(|_| OperationError::InvalidEntryId)?;
 
         let id_sqlite_entry = self
@@ -1291,6 +1377,8 @@ impl IdlSqliteWriteTransaction {
     }
 
     pub fn restore_quarantined(&self, id: u64) -> Result<(), OperationError> {
+        #[cfg(feature = "verif-hooks")]
+        crate::verif_hooks::c04::storage_point("w:quarantine")?;
         let iid = i64::try_from(id).map_err(|_| OperationError::InvalidEntryId)?;
 
         let id_sqlite_entry = self
@@ -1333,6 +1421,8 @@ impl IdlSqliteWriteTransaction {
     /// specific situations.
     #[instrument(level = "trace", skip_all)]
     pub fn danger_purge_id2entry(&self) -> Result<(), OperationError> {
+        #[cfg(feature = "verif-hooks")]
+        crate::verif_hooks::c04::storage_point("w:purge")?;
         self.get_conn()?
             .execute(&format!("DELETE FROM {}.id2entry", self.get_db_name()), [])
             .map(|_| ())
@@ -1340,6 +1430,8 @@ impl IdlSqliteWriteTransaction {
     }
 
     pub fn write_db_s_uuid(&self, nsid: Uuid) -> Result<(), OperationError> {
+        #[cfg(feature = "verif-hooks")]
+        crate::verif_hooks::c04::storage_point("w:s_uuid")?;
         let data = serde_json::to_vec(&nsid).map_err(|e| {
             admin_error!(immediate = true, ?e, "CRITICAL: Serde JSON Error");
             eprintln!("CRITICAL: Serde JSON Error -> {e:?}");
@@ -1370,6 +1462,8 @@ impl IdlSqliteWriteTransaction {
     }
 
     pub fn write_db_d_uuid(&self, nsid: Uuid) -> Result<(), OperationError> {
+        #[cfg(feature = "verif-hooks")]
+        crate::verif_hooks::c04::storage_point("w:d_uuid")?;
         let data = serde_json::to_vec(&nsid).map_err(|e| {
             admin_error!(
                 immediate = true,
@@ -1404,6 +1498,8 @@ impl IdlSqliteWriteTransaction {
     }
 
     pub fn set_db_ts_max(&self, ts: Duration) -> Result<(), OperationError> {
+        #[cfg(feature = "verif-hooks")]
+        crate::verif_hooks::c04::storage_point("w:ts_max")?;
         let data = serde_json::to_vec(&ts).map_err(|e| {
             admin_error!(
                 immediate = true,
@@ -1440,6 +1536,8 @@ impl IdlSqliteWriteTransaction {
     // ===== inner helpers =====
     // Some of these are not self due to use in new()
     fn get_db_version_key(&self, key: &str) -> Result<i64, OperationError> {
+        #[cfg(feature = "verif-hooks")]
+        crate::verif_hooks::c04::storage_point("r:version")?;
         self.get_conn().map(|conn| {
             conn.query_row(
                 &format!(
@@ -1457,6 +1555,8 @@ impl IdlSqliteWriteTransaction {
     }
 
     fn set_db_version_key(&self, key: &str, v: i64) -> Result<(), OperationError> {
+        #[cfg(feature = "verif-hooks")]
+        crate::verif_hooks::c04::storage_point("w:version")?;
         self.get_conn()?
             .execute(
                 &format!(
